@@ -900,7 +900,9 @@ func sm2P256ReduceDegree(a *sm2P256FieldElement, b *sm2P256LargeFieldElement) {
 				tmp[i+7] -= set7
 				tmp[i+7] -= (x << 24) & bottom28Bits
 				tmp[i+8] += (x << 28) & bottom29Bits
-				if tmp[i+8] < 0x20000000 {
+				// x == 1 never needs the borrow (tmp[i+8] >= 1<<28 then), and
+				// (x>>1)-1 would underflow tmp[i+9]
+				if tmp[i+8] < 0x20000000 && x > 1 {
 					tmp[i+8] += 0x20000000 & xMask
 					tmp[i+8] -= 1
 					tmp[i+8] -= x >> 4
@@ -914,7 +916,7 @@ func sm2P256ReduceDegree(a *sm2P256FieldElement, b *sm2P256LargeFieldElement) {
 				tmp[i+7] -= set7 // 借位
 				tmp[i+7] -= (x << 24) & bottom28Bits
 				tmp[i+8] += (x << 28) & bottom29Bits
-				if tmp[i+8] < 0x20000000 {
+				if tmp[i+8] < 0x20000000 && x > 1 {
 					tmp[i+8] += 0x20000000 & xMask
 					tmp[i+8] -= x >> 4
 					tmp[i+9] += ((x >> 1) - 1) & xMask
